@@ -61,9 +61,22 @@ CLAIMS = {
   text="Deductive proof that the four limit checks are exact for all inputs (nil iff the resulting count / UID is within the configured maximum, including the deliberate wrap-around test on int64 addition), and return the documented error. Also proved: AddMessagesToMailbox / MoveMessagesFromMailbox read count and next UID of the DESTINATION mailbox in the same transaction and write nothing unless both checks passed; State.Create checks the mailbox limit for every mailbox it is about to create (name and missing parents; a genuine defect found here was repaired).",
   note="Assumes non-negative counts at the call sites (stated as preconditions). Assumes the abstract transaction model (ghost write counter, uninterpreted count/next-UID functions). Undecided: AppendRegular (check on a read-only client outside the inserting transaction), Rename, connector-side creation, all-or-nothing via wrapTx, concurrency.",
   ref="DESIGN.md §4 C17"),
+ "C07": dict(
+  text="Deductive proof of the transaction wrapper every database write goes through (sqlite3 Client.wrapTx): for every operation and every failing step, a nil result means exactly one successful commit and no rollback, an error result means nothing was committed, every transaction begun is ended exactly once and at most one is begun. This is the 'before or after, never half' clause for the database part of every operation; it is the only clause of C07 a per-function contract can decide.",
+  note="Assumes the database/sql model in contracts/deps/sql.spec (BeginTx/Commit/Rollback counters; SQLite makes a commit atomic and durable), op does not commit/roll back itself, the recover()/re-panic path is not modelled. NOT decided (no contract within reach): process death at arbitrary points, WAL recovery, the order of store writes and database statements, clean-up of left-overs on restart, message bytes on disk.",
+  ref="DESIGN.md §4 C07"),
+ "C14": dict(
+  text="Deductive proof of the protection clauses of the namespace model, for every name: CREATE of INBOX and DELETE of INBOX (case-insensitive, after modified-UTF-7 decoding) are refused by the session handlers before the state is touched; State.Create refuses every name with the recovery-mailbox prefix (case-insensitive), State.Delete and State.Rename refuse the recovery mailbox as source or destination with ErrOperationNotAllowed - in each case before any write transaction is started (ghost transaction counter unchanged).",
+  note="strings.EqualFold/ToLower/HasPrefix are uninterpreted functions (foldEq, lower, hasPrefix); stateDBWrite is trusted to start exactly one transaction; closure bodies passed to stateDBWrite are outside these guard contracts (nocallbacks), callee preconditions after the guard are not checked in the guard-only contracts. NOT decided: the hierarchy/subscription reference model over command sequences, LIST/LSUB pattern matching (regular-expression translation in match.go: regexp is outside the verifier), \\Noselect, connector-driven mailbox updates.",
+  ref="DESIGN.md §4 C14"),
+ "C20": dict(
+  text="Deductive proof of the client-protection clauses of the recovery mailbox, for every name: it cannot be created (State.Create), deleted (State.Delete), renamed from or onto (State.Rename), appended to (State.AppendOnlyMailbox) or be the destination of COPY / MOVE (Mailbox.Copy / Mailbox.Move): each returns an error (ErrOperationNotAllowed) before any write transaction is started.",
+  note="Same assumptions as C14. NOT decided: 'answered OK implies stored under the announced UID', the fall-back insertion into the recovery mailbox for every remote failure pattern, once-per-distinct-message (hash set), listing exactly while non-empty, copy/move out of the recovery mailbox.",
+  ref="DESIGN.md §4 C20"),
 }
 
 NA = {
+ "C15": "the search evaluator compiles the key tree into closures stored in structs and run in parallel goroutines (buildSearchOp / Search); closures held as data and goroutines are outside the verified subset, and the text keys depend on rfc822/charset decoding libraries: no contract within reach states 'exactly the matching messages'",
  "C09": "store Set/Get is a goroutine + io.Pipe pipeline over LZ4, AES-GCM and the file system; 'returns exactly the stored bytes' can only be assumed of those dependencies, and the rest is reader/writer exclusion (concurrency): no contract within reach states the property",
  "C19": "data races, deadlock freedom and goroutine leaks are properties of schedules; the verifier has no thread, lock-order or happens-before model",
 }
